@@ -4,6 +4,7 @@ CONSTANTS
   StringSlotLax = FALSE
   RangeCheck = TRUE
   AnyCimIntAsIs = FALSE
+  ArrayHeadShortcut = FALSE
   PartialUsecAsterisks = TRUE
   NegOffsetFix = TRUE
   CopyKeepsPrecision = TRUE
